@@ -26,7 +26,7 @@ type c04Case struct {
 }
 
 var c04Causes = []string{
-	"handler-ok", "handler-ok", "handler-err", "handler-err", "handler-err", "unknown-route", "bad-body", "panic-s", "panic-e",
+	"handler-ok", "handler-ok", "handler-ok-status", "handler-err", "handler-err", "handler-err", "unknown-route", "bad-body", "panic-s", "panic-e",
 	"veto-PostReadCallHeader", "veto-PreReadCallBody", "veto-PostReadCallBody", "conn-closed", "result-mismatch", "result-mismatch",
 	"cveto-PreWriteCall", "rveto-PostReadReplyHeader", "rveto-PreReadReplyBody", "rveto-PostReadReplyBody",
 }
@@ -146,6 +146,8 @@ func (c c04Case) arg() *LibArg {
 	switch c.Cause {
 	case "handler-err":
 		a.Act = "err"
+	case "handler-ok-status":
+		a.Act = "ret-okstatus"
 	case "panic-s":
 		a.Act = "panic-s"
 	case "panic-e":
@@ -170,7 +172,7 @@ func (c c04Case) expected() expect {
 		return tr
 	}
 	switch {
-	case c.Cause == "handler-ok":
+	case c.Cause == "handler-ok", c.Cause == "handler-ok-status":
 		return expect{ok: true, resultVal: sp(c.Val)}
 	case c.Cause == "handler-err":
 		tr := viaHTTP(vt.TripleOf(st), c.HasC && c.CauseTxt == "")
@@ -354,7 +356,7 @@ func runC04(c c04Case) (string, vt.StatusTriple) {
 	// the handler ran exactly when the model says so
 	wantCalls := 0
 	switch {
-	case c.Cause == "handler-ok", c.Cause == "handler-err", c.Cause == "panic-s", c.Cause == "panic-e", c.Cause == "conn-closed", c.Cause == "result-mismatch", strings.HasPrefix(c.Cause, "rveto-"):
+	case c.Cause == "handler-ok", c.Cause == "handler-ok-status", c.Cause == "handler-err", c.Cause == "panic-s", c.Cause == "panic-e", c.Cause == "conn-closed", c.Cause == "result-mismatch", strings.HasPrefix(c.Cause, "rveto-"):
 		wantCalls = 1
 	}
 	if c.Cause != "conn-closed" {
@@ -392,7 +394,7 @@ func (c c04Case) knownKey() string {
 	return ""
 }
 
-const ruleC04 = "one call per case: cause in {handler OK, handler status (any int32 code, any msg/cause bytes within the codec's text domain), unknown route, undecodable request body, handler panic, server-side veto at each pre-handler stage, caller-side veto before writing and at each reply-reading stage, connection cut while the handler runs, result-type mismatch} x protocol {raw,json,pb,http,ws+json,ws+pb over the real websocket upgrade} x body codec {json,xml,form} x reply codec asked for {none, json, xml, form, an unregistered id}; oracle: small model of the expected (code,msg,cause) at accessor level, decodability of a mismatching result decided by the codec alone; non-trivial = expected outcome is not OK or the result type mismatches; distinct by the case"
+const ruleC04 = "one call per case: cause in {handler OK (nil status or an explicit status object with code 0), handler status (any int32 code, any msg/cause bytes within the codec's text domain), unknown route, undecodable request body, handler panic, server-side veto at each pre-handler stage, caller-side veto before writing and at each reply-reading stage, connection cut while the handler runs, result-type mismatch} x protocol {raw,json,pb,http,ws+json,ws+pb over the real websocket upgrade} x body codec {json,xml,form} x reply codec asked for {none, json, xml, form, an unregistered id}; oracle: small model of the expected (code,msg,cause) at accessor level, decodability of a mismatching result decided by the codec alone; non-trivial = expected outcome is not OK or the result type mismatches; distinct by the case"
 
 func TestC04Status(t *testing.T) {
 	rec := vt.NewRec(t, "C04", "status", ruleC04)
